@@ -1,15 +1,15 @@
 """C09 — subscripts and slices follow Python's rules (DESIGN.md §3 C09)."""
-import json, os, collections
-from common import REPO
+import json, os, collections, re, struct, concurrent.futures
+from common import REPO, LEAN, sh
 
 READY = True
 
 META = {
     "technique": "Lean 4 proof (slice model = CPython PySlice_AdjustIndices for all lists/bounds/steps) + exhaustive correspondence on the quantifier's box",
     "category": "proof",
-    "text": "Kernel-checked theorems: the Lean model of ops::slice (with every checked arithmetic operation modelled as a possible panic) returns exactly CPython's selection for every list shorter than 2^63 and every start/stop/step in i64, a zero step is the only error, no panic; subscripts likewise. Value level (MJ.Sub): for strings in all three representations (UTF-8 bytes; the Chars cursor provably stands on character boundaries and yields the scalar values), bytes, tuples, sequences, sized/unsized/one-shot iterables and slice parts / subscripts that are Python integers of any representation and size (bool, i64, u64, i128, u128; beyond i64 clamped by slice_bound), ops::slice / get_item_opt return Python's selection of the same type; slice is total (error iff a part does not convert, in start/stop/step order, or the step is zero, or the value has no sliceable representation), never panics; integral floats act as integers, everything else is the documented conversion error / undefined; VM arms GetItem/GetAttr/Slice under the four undefined modes. Every dispatch/arm/message table the model interprets is regenerated from /repo. The model is tied to /repo by running model, CPython-transcription and the real engine on the whole box of the property's quantifier (exhaustive), the value-kind x key-kind product through 12 entry points and 4 undefined modes, long random sequences, and metamorphic relations (reverse/first/last/length/for-loop/slices of slices/literal vs run-time), plus CPython itself as an independent witness for the spec.",
+    "text": "Kernel-checked theorems: the Lean model of ops::slice (with every checked arithmetic operation modelled as a possible panic) returns exactly CPython's selection for every list shorter than 2^63 and every start/stop/step in i64, a zero step is the only error, no panic; subscripts likewise. Value level (MJ.Sub): for strings in all three representations (UTF-8 bytes; the Chars cursor provably stands on character boundaries and yields the scalar values; the result of a slice is, byte for byte, the concatenation of the whole byte ranges of the characters Python selects, for negative steps too, combining marks and 4-byte characters included), bytes, tuples, sequences, sized/unsized/one-shot iterables and slice parts / subscripts that are Python integers of any representation and size (bool, i64, u64, i128, u128; beyond i64 clamped by slice_bound), ops::slice / get_item_opt return Python's selection of the same type; slice is total (error iff a part does not convert, in start/stop/step order, or the step is zero, or the value has no sliceable representation), never panics; integral floats act as integers, everything else is the documented conversion error / undefined; VM arms GetItem/GetAttr/Slice under the four undefined modes. Representation is not an input: at every conversion site of the regenerated site table (the three slice parts, get_item_opt::index, every get_value that takes a position, the repetition count, the integer-typed arguments of range / batch / slice / indent / round / split / truncate / wordwrap / randrange / lipsum) two numbers holding the same integer convert alike whatever their ValueRepr (I64, U64, I128, U128, integral F64), booleans convert like 0 / 1, and everything that holds no integer is rejected uniformly. Every object kind the engine registers (regenerated list of impl Object blocks, ObjectRepr and Enumerator variants): Seq / Iterable objects are the model's seq / tuple / sized / unsized / one-shot classes; repetitions (seq * n, also nested: Python's xs * n with an honest length), reversed views (Python's reversed(x) = x[::-1] item by item), one-shot iterators used more than once (what each subscript / slice enumeration yields and leaves; nothing is yielded twice), chained sequences; maps and plain objects are not sliceable (the cannot-be-sliced error) and subscripted by key. Every dispatch/arm/message table the model interprets is regenerated from /repo. The model is tied to /repo by running model, CPython-transcription and the real engine on the whole box of the property's quantifier (exhaustive), the value-kind x key-kind product through 12 entry points and 4 undefined modes (value kinds: every string / bytes / ObjectRepr / Enumerator flavour incl. std sets and lists, repetitions, reversed views, custom objects per Enumerator variant), 140 derived built-in values with Python's own expectation of their items, relations (reverse/first/last/length) on every value, bounds produced inside templates by 40 expressions, one-shot iterators driven through op sequences, sequences of 2^16 and 10^5 items, long random sequences, metamorphic relations, and the conversion-site stream (every site x every representation), plus CPython itself as an independent witness for the spec.",
     "design_ref": "DESIGN.md §3 C09",
-    "level_note": "Trusted: Lean kernel; hand transcription of ops.rs slice/slice_bound/get_offset_and_len/range_step_backwards, value/mod.rs get_item_opt(+index)/get_item/get_item_by_index/get_attr and the VM arms GetItem/GetAttr/Slice into MJ/Model/{Slice,Subscript}.lean; every dispatch table, conversion arm list, error kind/message, length function and the handle_undefined table the model interprets is regenerated from /repo (lib/tables/c09.py) with shape checks. Validated exhaustively on the box (10 kinds x len 0..6 x 23 starts x 23 stops x 13 steps) and on the value-kind x key-kind product through 12 entry points x 4 undefined modes; long random sequences (len <= 2000, bounds near +-len, +-2^31, +-2^63, +-2^64, +-2^127) against the model and CPython.",
+    "level_note": "Trusted: Lean kernel; hand transcription of ops.rs slice/slice_bound/get_offset_and_len/range_step_backwards, value/mod.rs get_item_opt(+index)/get_item/get_item_by_index/get_attr and the VM arms GetItem/GetAttr/Slice into MJ/Model/{Slice,Subscript}.lean; every dispatch table, conversion arm list, error kind/message, length function and the handle_undefined table the model interprets is regenerated from /repo (lib/tables/c09.py) with shape checks. Validated exhaustively on the box (10 kinds x len 0..6 x 23 starts x 23 stops x 13 steps) and on the value-kind x key-kind product through 12 entry points x 4 undefined modes; long random sequences (len <= 2000, bounds near +-len, +-2^31, +-2^63, +-2^64, +-2^127) against the model and CPython. Round 5: the models of repeat_iterable / Repeated, Value::reverse, the one-shot iterator state machine and the conversion functions are hand transcriptions as well (MJ/Model/SubKinds.lean), tied by the regenerated tables C09_CONVERSION_SITES / C09_REPEATED / C09_OBJECT_IMPLS / C09_REVERSE (shape-checked) and by the streams mr / dr / pb / os / huge / cv; only validated (oracle streams, no model): GroupTuple, the built-in filters that produce the derived values (their items are compared with Python's expectation), sizedness of lazy results over iterators with inexact size hints, sequences longer than 10^5.",
 }
 
 KIND_CLASS = {"strplain": "str", "strsmall": "str", "strsafe": "str", "bytes": "bytes", "tuple": "tuple"}
@@ -73,7 +73,7 @@ def _fnv(cls, xs):
 
 def _long_chr(i):
     q = i // 4
-    return chr([0x61 + q % 26, 0xe0 + q % 32, 0x4e00 + q % 1000, 0x1f600 + q % 64][i % 4])
+    return chr([0x61 + q % 26, 0x300 + q % 32, 0x4e00 + q % 1000, 0x1f600 + q % 64][i % 4])
 
 
 def _long_obj(kind, n):
@@ -201,9 +201,40 @@ def _spec_py(spec):
         return bytes.fromhex(arg), "bytes"
     if tag == "P":
         return tuple(range(int(arg))), "tuple"
-    if tag in ("L", "D", "A", "CS", "E", "R", "CI", "X", "O"):
+    if tag in ("L", "D", "A", "CS", "E", "R", "CI", "X", "O", "BS", "LL", "HS"):
         return list(range(int(arg))), "iter"
+    if tag == "RP":
+        n, k = [int(x) for x in arg.split("x")]
+        return list(range(n)) * k, "iter"
+    if tag == "RR":
+        n, a, b = [int(x) for x in arg.split("x")]
+        return (list(range(n)) * a) * b, "iter"
+    if tag == "CE":
+        return list(range(int(arg.split(":")[2]))), "iter"
+    if tag == "RV":
+        inner = arg.replace("=", ":")
+        o = _spec_py(inner)
+        if o is None:
+            return None
+        obj, cls = o
+        if enumerates_reviter(inner) and REVERSE_FORWARD:
+            # Value::reverse does not reverse what enumerates through `Enumerator::RevIter` (known
+            # finding reverse:RevIter, reported by the relation streams): the reversed VIEW of such
+            # a value holds the items in forward order; slicing / subscripting it is checked on that
+            return obj, ("iter" if cls in ("tuple", "iter") else cls)
+        return obj[::-1], ("iter" if cls in ("tuple", "iter") else cls)
     return None
+
+
+# `Enumerator` variants whose arm of Value::reverse does not reverse (regenerated table C09_REVERSE)
+REVERSE_FORWARD = set()
+
+
+def enumerates_reviter(spec):
+    return spec.startswith("BS:") or spec.startswith("LL:") or (spec.startswith("CE:") and spec.split(":")[2] == "rev")
+
+
+SITE_REVITER = "reverse:RevIter"
 
 
 def _spec_int(spec, omitted_ok):
@@ -322,6 +353,11 @@ def derived_case(r, f, case, impl):
         r.hist["oracle"]["engine-rule (not a Python sequence)"] += 1
         return
     items = [] if mat == "" else mat.split(" ¦ ")
+    exp = DERIVED_EXPECT.get(ident)
+    if exp is not None and ident not in REVITER_VIEWS:
+        # Python's own expectation of what the value holds (checked against the engine's
+        # materialisation by the `dr` stream) instead of the engine's `x|list`
+        items = [repr(x) for x in exp]
     if st == "dv":
         i = _key_int(f[4])
         if f[2] == "apiidx":
@@ -353,6 +389,382 @@ def derived_case(r, f, case, impl):
             r.oracle_failure(case, f"x[a:b:c] gives {lhs[:80]}, (x|list)[a:b:c] gives {rhs[:80]}, Python selects {want[:80]}", "ds:" + ident)
 
 
+
+# ------------------------------------------------------------------------------------------
+# Python's own answer for the derived values (independent of the engine's materialisation)
+class _Undef:
+    def __repr__(self):
+        return "undef"
+
+
+def _derived_expect():
+    prs = [[1, "b"], [0, "a"], [2, "c"]]; nest = [[[5, 6]], [[7, 8]]]; tps = [(1, "x"), (3, "y")]; und = _Undef()
+    xs = [10, 20, 30]; e = []; t = (7, 8); s = "héy"; it = [100, 101, 102]; ux = [201, 202, 203]
+    recs = [{"k": 0, "v": 1}, {"k": 1, "v": 2}, {"k": 1, "v": 3}]
+    bs = [1, 2, 3, 4]; ll = [5, 6, 7]; dq = [11, 12, 13]; arr = [21, 22, 23]; os_ = [300, 301, 302]
+    ce = [0, 1, 2]; names = ["n0", "n1", "n2"]; kv = [(0, 0), (1, 10), (2, 20)]
+    items = [("a", 1), ("b", 2)]
+    mid = [0]
+    for i in range(1, 37):
+        mid = [2 * i] + mid + [2 * i + 1]
+    E = {
+        "chain_e_xs": xs, "chain_xs_e": xs, "chain_e_e_xs_e": xs, "chain_xs_e_t": xs + list(t), "chain_t0_xs": xs + xs,
+        "chain_nested": xs + list(t), "chain_nested_head": xs, "chain_one": xs, "chain_mixed_str": list(s) + xs,
+        "chain_mixed_iter": it + xs, "add_e_xs": xs, "add_xs_xs": xs + xs, "add_t_t": list(t + t), "add_t0_t": list(t),
+        "add_xs_it": xs + it, "add_add": xs, "batch": [[10, 20], [30]], "batch_row": [10, 20], "batch_fill": [[10, 20], [30, "x"]],
+        "batch_last": [30, "x"], "slicef": [[10, 20], [30]], "slicef_row": [30], "items": items, "items_pair": ["a", 1],
+        "dictsort": items, "dictsort_pair": ["b", 2], "zip": [(10, 7), (20, 8)], "zip_pair": [20, 8],
+        "groupby": [(0, [recs[0]]), (1, recs[1:])], "group": [0, [recs[0]]], "group_list": [recs[0]], "group_1": recs[1:],
+        "range5": list(range(5)), "range_step": list(range(0, 10, 3)), "range_down": list(range(5, 0, -2)), "range_empty": [],
+        "rev_xs": xs[::-1], "rev_t": list(t)[::-1], "rev_s": list(s)[::-1], "rev_it": it[::-1], "rev_ux": ux[::-1],
+        "rev_range": [3, 2, 1, 0], "rev_chain": xs[::-1], "list_xs": xs, "list_s": list(s), "list_m": ["a", "b"], "list_ux": ux,
+        "map_str": ["10", "20", "30"], "map_attr": [0, 1, 1], "select": [], "reject": [0, 2, 4], "selectattr": recs[1:],
+        "sort": [1, 2, 3], "unique": [1, 2], "split": ["a", "b", "c"], "lines": ["a", "b"], "py_items": items,
+        "py_keys": ["a", "b"], "py_values": [1, 2], "py_split": ["a", "b", "c"], "ser_tuple": [1, "two", 3.5],
+        "ser_struct_list": [(1, 2), (3, 4)], "kwargs_items": items, "slice_of_chain": [20, 30, 7, 8], "slice_of_add": xs[::-1],
+        "str": list(s), "safe": list(s), "upper": list("HÉY"),
+        # repetitions
+        "rep_xs2": xs * 2, "rep_2xs": 2 * xs, "rep_one": xs * 1, "rep_zero": xs * 0, "rep_nested": (xs * 2) * 3,
+        "rep_nested3": ((xs * 2) * 1) * 2, "rep_nested_l": 2 * (3 * xs), "rep_nested_zero": (xs * 0) * 3, "rep_e": e * 3,
+        "rep_e_nested": (e * 2) * 2, "rep_t": list(t * 2), "rep_t_nested": list((t * 2) * 2), "rep_it": it * 2, "rep_t_zero": [], "rep_t_one": list(t), "rep_t0": [], "rep_it_zero": [], "rep_range_one": [0, 1, 2],
+        "rep_range": list(range(3)) * 2, "rep_chain": (e + xs) * 2, "rep_of_slice": xs[1:] * 2, "rep_of_rev": xs[::-1] * 2,
+        "rep_bs": bs * 2, "rep_true": xs * True, "slice_of_rep": (xs * 2)[1:5], "chain_of_rep": xs * 2 + xs * 1,
+        "add_of_rep": xs * 2 + list(t) * 2,
+        "chain_xs_ux": xs + ux, "chain_ux_xs": ux + xs, "chain_ux_e_ux": ux + ux, "add_xs_ux": xs + ux, "add_ux_xs": ux + xs,
+        "slice_ux_open": ux[1:], "slice_ux_back": ux[::-1], "slice_ux_end": ux[-2:], "chain_of_slices": ux[1:] + xs[:2],
+        "zip_ux": list(zip(ux, xs)), "batch_ux": [ux[:2], ux[2:]],
+        # std collections
+        "bs": bs, "ll": ll, "hs1": [9], "dq": dq, "arr": arr, "bs_slice": bs[1:], "ll_back": ll[::-1],
+        # reversed views
+        "rev_bs": bs[::-1], "rev_ll": ll[::-1], "rev_dq": dq[::-1], "rev_arr": arr[::-1], "rev_rep": (xs * 2)[::-1],
+        "rev_rev": xs, "rev_rev_bs": bs, "rev_e": [], "rev_slice": xs[1:][::-1], "rev_back_slice": xs, "rev_m": ["b", "a"],
+        "rev_items": items[::-1], "rev_batch": [[30], [10, 20]], "rev_oneshot": os_[::-1], "rev_ce_seq": ce[::-1],
+        "rev_ce_vals": ce[::-1], "rev_ce_iter": ce[::-1], "rev_ce_iternone": ce[::-1], "rev_ce_rev": ce[::-1],
+        "rev_ce_str": names[::-1], "rev_ce_kv": kv[::-1], "rev_ce_revkv": kv[::-1], "rev_ce_empty": [],
+        "ce_i_str": names, "ce_s_str": names, "ce_i_kv": kv, "ce_i_revkv": kv,
+        # attribute paths with numeric parts (`Value::get_path` -> `get_item_by_index`)
+        "path_map0": [p[0] for p in prs], "path_map1": [p[1] for p in prs], "path_nested": [n[0][1] for n in nest],
+        "path_sort0": sorted(prs, key=lambda p: p[0]), "path_sort1_rev": sorted(prs, key=lambda p: p[1], reverse=True),
+        "path_tuple": [t_[1] for t_ in tps], "path_str": ["b", "d"], "path_oob": [und, und, und], "path_select": [p for p in prs if p[0]],
+        "path_reject": [p for p in prs if not p[0]], "path_unique": [[1, "b"], [0, "a"], [2, "c"]],
+        "path_groupby_first": [0, [[0, "a"]]],
+        # deeper than MergeSeq::MAX_DEPTH
+        "deep_chain_l": list(range(41)), "deep_chain_r": list(range(40, -1, -1)), "deep_chain_mid": mid,
+        "deep_chain_iter": list(range(41)), "deep_add_l": list(range(41)), "deep_add_r": list(range(40, -1, -1)), "deep_rep": [5, 6],
+    }
+    return E
+
+
+DERIVED_EXPECT = _derived_expect()
+# derived values that are (or are built from) the reversed view of something that enumerates through
+# `Enumerator::RevIter`, and the values that enumerate that way themselves
+REVITER_VIEWS = {"rev_bs", "rev_ll", "rev_rev_bs", "rev_ce_rev"}
+REVITER_BASES = {"bs", "ll"}
+
+
+def _py_items(xs):
+    return " ¦ ".join(repr(x) for x in xs)
+
+
+# ---- bounds produced inside the template: the integer Python sees (None = omitted part)
+BOUND_PY = {
+    "_": None, "lit2": 2, "neg1": -1, "neg2p": -2, "int_s3": 3, "int_sneg2": -2, "int_f2": 2, "int_fneg": -1, "int_t": 1,
+    "len3": 3, "abs2": 2, "true": 1, "false": 0, "add2": 2, "subneg2": -2, "mul4": 4, "fdiv3": 3, "fdivneg": -2, "mod3": 3,
+    "pow2": 2, "round2": 2, "loopidx": 3, "looplen": 5, "looprev0": 2, "big63": 2**63, "negbig": -(2**63) - 1, "big64": 2**64,
+    "min1": 1, "sum2": 2, "count3": 3, "first2": 2, "nsattr": 2, "negvar": -2, "varu": 2, "var128": 3, "varu128": 1, "cond": 2,
+    # floats with an integral value act as that integer (engine rule; Python: TypeError)
+    "float2": 2, "floatneg1": -1, "sumf": 2, "divf": 2,
+}
+BOUND_FLOAT = {"float2", "floatneg1", "sumf", "divf"}
+PB_OBJ = {"list": [0, 1, 2, 3, 4], "listv": [0, 1, 2, 3, 4], "tuple": (0, 1, 2, 3, 4), "str": "aé€𝄞b", "strv": "aé€𝄞b",
+          "range": [0, 1, 2, 3, 4], "unsized": [0, 1, 2, 3, 4], "bytes": bytes([0, 1, 2, 3, 4])}
+
+
+def py_pb(f):
+    kind, a, b, c = f[1], f[2], f[3], f[4]
+    obj = PB_OBJ[kind]
+    if c.startswith("@"):
+        try:
+            x = obj[BOUND_PY[c[1:]]]
+        except IndexError:
+            return "undef"
+        return "str:" + x.encode().hex() if isinstance(x, str) else "elem:%d" % x
+    A, B, C = BOUND_PY[a], BOUND_PY[b], BOUND_PY[c]
+    if C == 0:
+        return ZERO_STEP
+    sel = obj[slice(A, B, C)]
+    if isinstance(sel, str):
+        return "str:" + sel.encode().hex()
+    if isinstance(sel, bytes):
+        return "bytes:" + sel.hex()
+    return ("tuple:" if isinstance(sel, tuple) else "list:") + ",".join(map(str, sel))
+
+
+def _rep_base(n):
+    for d in range(min(1000, max(n, 1)), 0, -1):
+        if n % d == 0:
+            return d
+    return 1
+
+
+def py_huge(f):
+    kind, n, a, b, c = f[1], int(f[2]), f[3], f[4], f[5]
+    if kind == "rep":
+        base = _rep_base(n)
+        obj = list(range(base)) * (n // base)
+    else:
+        obj = _long_obj(kind, n)
+    if c.startswith("i"):
+        try:
+            x = obj[int(c[1:])]
+        except IndexError:
+            return "undef"
+        return ("chr:%d" % ord(x)) if isinstance(obj, str) else "elem:%d" % x
+    if _ib(c) == 0:
+        return ZERO_STEP
+    return _fnv(_long_class(kind), _elems(obj[slice(_ib(a), _ib(b), _ib(c))]))
+
+
+# ---- conversion sites: one template per site of the regenerated table (`k` is the value under test)
+CV_TEMPLATES = {
+    "ops::slice.start": "{{ xs[k:]|list }}~{{ s[k:] }}~{{ t[k:] }}~{{ ux[k:]|list }}~{{ by[k:] }}~{{ bs[k:]|list }}",
+    "ops::slice.stop": "{{ xs[:k]|list }}~{{ s[:k] }}~{{ t[:k] }}~{{ ux[:k]|list }}~{{ by[:k] }}~{{ bs[:k]|list }}",
+    "ops::slice.step": "{{ xs[::k]|list }}~{{ s[::k] }}~{{ t[::k] }}~{{ ux[::k]|list }}~{{ by[::k] }}~{{ bs[::k]|list }}",
+    "get_item_opt::index": "{{ xs[k] }}~{{ s[k] }}~{{ t[k] }}~{{ it[k] }}~{{ ux[k] }}~{{ bs[k] }}~{{ by[k] }}~{{ (xs * 2)[k] }}~{{ xs|attr(k) }}",
+    "filters.rs:GroupTuple::get_value.key": "{{ (recs|groupby('k'))[0][k] }}",
+    "merge_object.rs:MergeSeq::get_value.key": "{{ (e|chain(xs))[k] }}~{{ deep_chain_l[k] }}",
+    "object.rs:$vec_type<T>::get_value.key": "{{ xs[k] }}~{{ dq[k] }}",
+    "object.rs:[T; N]::get_value.key": "{{ arr[k] }}",
+    "tuple.rs:Tuple::get_value.key": "{{ t[k] }}~{{ (m|items)[0][k] }}",
+    "ops.rs:mul.n": "{{ s * k }}~{{ k * s }}",
+    "ops.rs:repeat_iterable.n": "{{ (xs * k)|list }}~{{ (k * t)|list }}~{{ ((xs * 2) * k)|list }}",
+    "filters.rs:split.maxsplits": "{{ 'a,b,c,d'|split(',', k) }}",
+    "filters.rs:round.precision": "{{ 3.14159|round(k) }}",
+    "filters.rs:slice.count": "{{ xs|slice(k)|list }}",
+    "filters.rs:batch.count": "{{ xs|batch(k)|list }}",
+    "filters.rs:indent.width": "{{ 'a\\nb'|indent(k) }}~{{ 'a\\nb'|indent(width=k) }}",
+    "functions.rs:range.lower": "{{ range(k)|list }}~{{ range(k, 4)|list }}",
+    "functions.rs:range.upper": "{{ range(0, k)|list }}",
+    "functions.rs:range.step": "{{ range(0, 6, k)|list }}~{{ range(6, 0, k)|list }}",
+    "contrib/mod.rs:truncate.length": "{{ 'hello world foo bar'|truncate(length=k) }}",
+    "contrib/mod.rs:truncate.leeway": "{{ 'hello world foo bar'|truncate(length=6, leeway=k) }}",
+    "contrib/mod.rs:wordwrap.width": "{{ 'aa bb cc'|wordwrap(width=k) }}",
+    # random output: only whether the argument converts
+    "contrib/globals.rs:randrange.n": "{{ randrange(k, k + 1) }}",
+    "contrib/globals.rs:randrange.m": "{% set q = randrange(-5, k) %}ok",
+    "contrib/globals.rs:lipsum.n": "{% set q = lipsum(n=k) %}ok",
+}
+CV_NO_VALUE = ("u64-wrap", "parse-usize", "internal-index", "forward")
+CV_INTS = [-2, -1, 0, 1, 2, 3]
+
+
+def _f64_bits(x):
+    return struct.unpack("<Q", struct.pack("<d", float(x)))[0]
+
+
+def cv_keys():
+    """(key spec, class) — class `int:<n>` = holds the integer n; other classes: engine rule"""
+    ks = []
+    for n in CV_INTS:
+        ks.append(("i:%d" % n, "int:%d" % n))
+        ks.append(("I:%d" % n, "int:%d" % n))
+        ks.append(("f:%d" % _f64_bits(n), "int:%d" % n))
+        if n >= 0:
+            ks.append(("u:%d" % n, "int:%d" % n))
+            ks.append(("W:%d" % n, "int:%d" % n))
+    ks += [("T", "int:1"), ("F", "int:0")]
+    ks += [("Z", "none"), ("U", "undefined"), ("sm:31", "string"), ("f:%d" % _f64_bits(1.5), "fraction"), ("L:2", "list"),
+           ("f:%d" % _f64_bits(float("nan")), "nan"), ("I:-9223372036854775809", "big-"), ("W:340282366920938463463374607431768211455", "big+")]
+    return ks
+
+
+# every `impl Object` of the table whose representation is Seq / Iterable / decided at run time -> what in
+# the harness slices and subscripts a value of that type (new implementations break the tie until listed)
+OBJECTS_COVERED = {
+    "filters.rs:GroupTuple": "dv group / group_1 / group_list (+ dr relations)",
+    "merge_object.rs:MergeSeq": "mg stream + dv chain_* / add_* / deep_chain_* / deep_add_* (Seq and Iterable flavour)",
+    "mod.rs:Iterable<T, F>": "kinds itersized / iterunsized / oneshot / E / X / O / R, every slice result, every reversed view",
+    "object.rs:$vec_type<T>": "kinds L, D (Vec, VecDeque) + dv dq",
+    "object.rs:$iterable_type<T>": "kinds BS, LL, HS (BTreeSet, LinkedList, HashSet) + dv bs / ll / hs1 (a HashSet of several items iterates in an order that differs from instance to instance: one item only)",
+    "object.rs:[T; N]": "kind A + dv arr",
+    "ops.rs:Repeated": "kinds RP, RR + dv rep_* / deep_rep + huge rep",
+    "tuple.rs:Tuple": "kind P + dv items_pair / zip_pair / add_t_t / rep_t",
+}
+# representation Map / Plain: not sequences — slicing is the `cannot be sliced` error, a subscript is a key
+# lookup (stated by getItemOpt_map / sliceV_total); the streams that pin this for the engine's own maps:
+MAPS_COVERED = {
+    "functions.rs:BoxedFunction": "value spec i:5 / Q class (plain): error", "argtypes.rs:KwargsValues": "dv dict",
+    "merge_object.rs:MergeDict": "dv chain_maps / merge_ctx", "mod.rs:StaticKeyMap": "gs/gi M: literals (lit entries)",
+    "mod.rs:ProxyMapObject<T, E, A>": "not built by the engine itself (Value::make_object_map is an embedder API)",
+    "namespace_object.rs:Namespace": "dv ns", "object.rs:$map_type<$key_type, V>": "kind MS", "object.rs:$map_type<&'static str, V>": "kind MS (same macro)",
+    "object.rs:$map_type<Value, V>": "kind M + dv hm", "loop_object.rs:Loop": "dv loop_obj", "macro_object.rs:Macro": "ga stream on plain values (no items)",
+    "module_object.rs:Module": "not sliceable (map); import tests are C18's", "contrib/globals.rs:Cycler": "dv cycler", "contrib/globals.rs:Joiner": "dv joiner",
+}
+ENUM_COVERED = {"NonEnumerable": "Q", "Empty": "CE:*:empty", "Str": "dv ce_i_str / ce_s_str", "Iter": "CE:*:iter*", "KeyValueIter": "dv ce_i_kv",
+                "RevIter": "CE:*:rev, BS, LL", "RevKeyValueIter": "dv ce_i_revkv", "Seq": "CE:*:seq, L, P", "Values": "CE:*:vals"}
+MACROS_COVERED = {("impl_value_vec", "Vec"): "L", ("impl_value_vec", "VecDeque"): "D", ("impl_value_iterable", "LinkedList"): "LL",
+                  ("impl_value_iterable", "HashSet"): "HS", ("impl_value_iterable", "BTreeSet"): "BS", ("impl_value_map", "BTreeMap"): "M",
+                  ("impl_str_map", "BTreeMap"): "MS", ("impl_str_map", "HashMap"): "dv hm", ("impl_value_map", "HashMap"): "dv hm (same macro)",
+                  ("impl_value_map", "IndexMap"): "preserve_order builds only (maps are not sliceable)"}
+
+
+def _strip_sized(x):
+    return x.replace("iterS:", "iter:").replace("iterU:", "iter:").replace("seq:", "iter:").replace("tuple:", "iter:").replace("safestr:", "str:")
+
+
+def _py_canon(obj, cls):
+    if cls == "str":
+        return "str:" + obj.encode("utf-8").hex()
+    if cls == "bytes":
+        return "bytes:" + bytes(obj).hex()
+    return "iter:" + ",".join(map(str, obj))
+
+
+def more_case(r, f, case, impl, m):
+    st = f[0]
+    if impl == "panic":
+        return
+    if st == "mr":
+        rel, spec = f[1], f[2]
+        r.hist["relation"][rel] += 1
+        o = _spec_py(spec)
+        r.count(case, o is not None and len(o[0]) > 0)
+        lhs, rhs = impl.split("~~")
+        if m is not None:
+            lm, rm = (m.split("~~") + ["-"])[:2]
+            if (lm != "-" and _strip_sized(lm) != _strip_sized(lhs)) or (rm != "-" and rm != rhs and _strip_sized(rm) != _strip_sized(rhs)):
+                r.model_disagreement(case, impl, m)
+        if o is None:
+            r.hist["oracle"]["engine-rule (not a Python sequence)"] += 1
+            return
+        # the Python object itself (an `RV:` spec already follows the known finding): relations on it
+        obj, cls = o
+        site = SITE_REVITER if enumerates_reviter(spec) and rel in ("rev", "last") else "mr:%s:%s" % (rel, _kindtag(spec))
+        r.hist["oracle"]["python"] += 1
+        if rel == "rev":
+            want = _py_canon(obj[::-1], cls)
+            if _strip_sized(rhs) != want:
+                r.oracle_failure(case, f"v[::-1] is {rhs[:80]}, Python's is {want[:80]}", "mr:revslice:" + _kindtag(spec))
+            if cls != "bytes" and _strip_sized(lhs) != want:        # the reverse filter has no bytes (not this property's business)
+                r.oracle_failure(case, f"v|reverse is {lhs[:80]}, Python's reversed is {want[:80]}", site)
+        elif rel in ("first", "last"):
+            if cls == "bytes":
+                return
+            try:
+                x = obj[0 if rel == "first" else -1]
+                want = ("chr:" + x.encode().hex()) if cls == "str" else "elem:%d" % x
+            except IndexError:
+                want = "undef"
+            if spec.startswith(("O:", "RV:O")) and rel == "last":
+                return      # a one-shot iterator cannot be subscripted from its end (engine rule)
+            if rhs.replace(":safe", "") != want:
+                r.oracle_failure(case, f"v[{0 if rel == 'first' else -1}] is {rhs[:80]}, Python's is {want}", "mr:%s:index:%s" % (rel, _kindtag(spec)))
+            if lhs.replace(":safe", "") != want:
+                r.oracle_failure(case, f"v|{rel} is {lhs[:80]}, Python's is {want}", site)
+        elif rel == "len":
+            want = "elem:%d" % len(obj)
+            for side, got in (("v|length", lhs), ("v[:]|length", rhs)):
+                got = got.replace("byte:", "elem:")
+                if got != want and not got.startswith("err:InvalidOperation|cannot calculate length"):
+                    r.oracle_failure(case, f"{side} is {got[:80]}, Python's len is {len(obj)}", "mr:len:" + _kindtag(spec))
+        return
+    if st == "dr":
+        rel, ident = f[1], f[2]
+        parts = impl.split("~~")
+        if len(parts) != 3:
+            r.oracle_failure(case, "malformed result " + impl[:80], "derived:malformed")
+            return
+        lhs, kind, mat = parts
+        r.hist["relation"]["derived:" + rel] += 1
+        r.count(case, mat != "" and not mat.startswith("err"))
+        if kind not in SEQLIKE or mat.startswith("err:"):
+            r.hist["oracle"]["engine-rule (not a Python sequence)"] += 1
+            return
+        items = [] if mat == "" else mat.split(" ¦ ")
+        exp = DERIVED_EXPECT.get(ident)
+        known = ident in REVITER_VIEWS
+        if exp is not None:
+            r.hist["oracle"]["python (independent expectation)"] += 1
+            want_items = [repr(x) for x in exp]
+            if rel == "len" and items != want_items:
+                r.oracle_failure(case, f"the value holds {mat[:100]}, Python's holds {_py_items(exp)[:100]}",
+                                 SITE_REVITER if known else "dr:items:" + ident)
+            if not known:
+                items = want_items
+        else:
+            r.hist["oracle"]["python on the engine's materialisation"] += 1
+        site = SITE_REVITER if (ident in REVITER_BASES or known) and rel in ("rev", "last") else "dr:%s:%s" % (rel, ident)
+        if kind == "string":
+            items = [x for x in items]
+        if rel in ("rev", "revslice"):
+            want = " ¦ ".join(items[::-1])
+            got = lhs
+            if kind == "string":
+                # a string reversed is a string: compare its characters
+                got = " ¦ ".join(repr(c) for c in eval(lhs)) if lhs.startswith(("'", '"')) else lhs
+            if got != want:
+                r.oracle_failure(case, f"{rel} gives {lhs[:100]}, Python's reversed is {want[:100]}", site if rel == "rev" else "dr:revslice:" + ident)
+        elif rel in ("first", "last"):
+            want = (items[0] if rel == "first" else items[-1]) if items else "undef"
+            if lhs != want:
+                r.oracle_failure(case, f"|{rel} gives {lhs[:100]}, Python's is {want[:100]}", site)
+        elif rel in ("len", "lenslice"):
+            want = str(len(items))
+            if lhs != want and not (rel == "len" and lhs.startswith("err:InvalidOperation|cannot calculate length")):
+                r.oracle_failure(case, f"{rel} gives {lhs[:100]}, Python's len is {want}", "dr:%s:%s" % (rel, ident))
+        return
+    if st == "pb":
+        r.hist["bound_expr"][f[2]] += 1
+        r.hist["bound_expr"][f[3]] += 1
+        r.hist["bound_expr"][f[4].lstrip("@")] += 1
+        r.hist["kind"]["pb:" + f[1]] += 1
+        r.count(case, True)
+        want = py_pb(f)
+        usesf = any(x.lstrip("@") in BOUND_FLOAT for x in f[2:5])
+        r.hist["oracle"]["engine-rule (integral float as integer)" if usesf else "python"] += 1
+        if impl != want:
+            r.oracle_failure(case, f"engine returned {impl[:100]}, Python selects {want[:100]}", "pb:" + f[1] + (":float" if usesf else ""))
+        return
+    if st == "os":
+        r.hist["oneshot_ops"][str(len(f[2].split(";")))] += 1
+        r.count(case, f[1] != "0")
+        if m is not None and impl != m:
+            r.model_disagreement(case, impl, m)
+        if impl.startswith("err:"):
+            r.oracle_failure(case, "an operation on a one-shot iterator failed: " + impl[:100], "os:error")
+            return
+        # a one-shot iterator yields every item at most once, whatever is done with it
+        nums = re.findall(r"\d+", impl)
+        if len(nums) != len(set(nums)):
+            r.oracle_failure(case, f"an item of a one-shot iterator was yielded twice: {impl[:100]}", "os:item-twice")
+        # the first operation sees the whole sequence: Python's answer
+        op = f[2].split(";")[0]
+        full = list(range(int(f[1])))
+        first = impl.split("|")[0]
+        want = None
+        if op[0] == "i" and int(op[1:]) >= 0:
+            k = int(op[1:])
+            want = str(full[k]) if k < len(full) else ""
+        elif op[0] in "st":
+            a, b, c = [None if x == "_" else int(x) for x in op[1:].split(",")]
+            want = "[" + ",".join(map(str, full[slice(a, b, c)])) + "]"
+            first = first.split("~")[0]
+        elif op == "l":
+            want = "[" + ",".join(map(str, full)) + "]"
+        elif op == "f":
+            want = str(full[0]) if full else ""
+        if want is not None and first != want:
+            r.oracle_failure(case, f"the first operation gives {first[:80]}, Python's is {want[:80]}", "os:first:" + op[0])
+        return
+    if st == "huge":
+        r.hist["kind"]["huge:" + f[1]] += 1
+        r.count(case, True)
+        want = py_huge(f)
+        if impl != want:
+            r.oracle_failure(case, f"engine returned {impl}, Python selects {want}", "huge:" + f[1])
+        return
+
+
 def glue_case(r, f, case, impl, mline):
     st = f[0]
     r.hist["stream"][st] += 1
@@ -378,8 +790,15 @@ def glue_case(r, f, case, impl, mline):
         if bad:
             r.oracle_failure(case, f"engine returned {impl[:120]}; {bad}", "meta:" + f[1] + ":" + f[2])
         return
+    if st in ("mr", "dr", "pb", "os", "huge", "cv"):
+        more_case(r, f, case, impl, m)
+        return
     if m is not None and impl != m:
-        r.model_disagreement(case, impl, m)
+        # objects whose size hints are not exact: whether the lazy result of a slice knows its
+        # length follows the hint arithmetic of skip/take/step_by, which the model does not carry
+        loose = st == "gs" and any(t in f[3] for t in ("iterlo", "iterlow", "iternone"))
+        if not (loose and impl.replace("iterS:", "iterU:") == m.replace("iterS:", "iterU:")):
+            r.model_disagreement(case, impl, m)
     if st == "long":
         r.hist["kind"][f[1]] += 1
         r.hist["long_len_bucket"]["<50" if int(f[2]) < 50 else "<300" if int(f[2]) < 300 else "<=2000"] += 1
@@ -433,6 +852,12 @@ def run(r):
               "(template_from_str render, loader-backed render_captured_to, render_block, macro, for body, set, render_captured, "
               "literals); subscripts likewise (+ Value::get_item, get_item_by_index, dot syntax); attributes; long random "
               "sequences (len <= 2000, bounds near 0, +-len, +-2^31, +-2^63, +-2^64, +-2^127, 2^128-1); metamorphic relations; "
+              "round 5: + 34 value specs for every other sequence-like object kind (std sets / linked lists, repetitions, reversed "
+              "views, one custom object per Enumerator variant under ObjectRepr::Seq and ::Iterable, loose size hints); 140 derived "
+              "values x 33 keys x 6 entries and x 600 slices, their items compared with Python's own expectation; relations "
+              "reverse / first / last / length on every value; bounds produced by 40 template expressions (all singles x 8 kinds, "
+              "4000 random triples); 6000 op sequences on one one-shot iterator; lengths 65535..100000 x 8 kinds x 15 slices; every "
+              "conversion site of the regenerated table x 36 keys (each small integer in all its representations); "
               "a case is non-trivial when it is distinct and selects from a non-empty sequence")
     r.assumptions = ["sequences longer than 6 behave like the model predicts (proved for the model for every length)",
                      "bounds outside i64 are rejected by i64::try_from before slicing",
@@ -442,53 +867,164 @@ def run(r):
     r.assumptions[1] = ("bounds that are not integers (floats, strings, undefined, ...) follow the engine's conversion rule "
                         "(integral floats act as integers, the rest is an InvalidOperation error) - Python raises TypeError for all of them")
     r.assumptions.append("map keys in the tie are booleans, integers in i64 and strings (the Ord/Eq of arbitrary Values is C07's)")
-    r.regen_tables(["C09_INDEXABLE_OBJECTS", "C09_SLICE_DISPATCH", "C09_SLICE_PRELUDE", "C09_INT_CONVERSION", "C09_GET_ITEM", "C09_VM_SUBSCRIPT", "C09_KINDS"])
-    idx_objs = (r.extra.get("tables") or {}).get("C09_INDEXABLE_OBJECTS") or []
+    r.assumptions.append("a HashSet of several items iterates in an order that changes from instance to instance: one-item sets only")
+    r.assumptions.append("whether the lazy result of a slice over an iterator with inexact size hints knows its length is not modelled (items are)")
+    tables = ["C09_INDEXABLE_OBJECTS", "C09_SLICE_DISPATCH", "C09_SLICE_PRELUDE", "C09_INT_CONVERSION", "C09_GET_ITEM", "C09_VM_SUBSCRIPT",
+              "C09_KINDS", "C09_CONVERSION_SITES", "C09_REPEATED", "C09_OBJECT_IMPLS", "C09_REVERSE", "C09_MERGESEQ_FLATTEN"]
+    r.regen_tables(tables)
+    tbl = r.extra.get("tables") or {}
+    idx_objs = tbl.get("C09_INDEXABLE_OBJECTS") or []
     for name, how in idx_objs:
         if how == "int" and name not in INDEXABLE_COVERED:
             r.broken.append(f"integer-indexable object `{name}` (impl Object with an integer-key get_value) is not covered by the C09 harness kinds")
     r.extra["indexable_objects_covered"] = {n: INDEXABLE_COVERED.get(n) for n, h in idx_objs if h == "int"}
+    # every object implementation / enumerator variant / collection macro instance has its harness kind
+    impls = tbl.get("C09_OBJECT_IMPLS") or {}
+    covered = {}
+    for name, rep, enum in impls.get("impls", []):
+        if rep in ("Seq", "Iterable", "dynamic"):
+            if name not in OBJECTS_COVERED:
+                r.broken.append(f"sequence-like object `{name}` (ObjectRepr::{rep}) is sliced / subscripted by no C09 harness kind")
+            covered[name] = OBJECTS_COVERED.get(name)
+        else:
+            if name not in MAPS_COVERED:
+                r.broken.append(f"object `{name}` (ObjectRepr::{rep}) is not listed in the C09 map / plain table")
+            covered[name] = "(" + rep + ") " + str(MAPS_COVERED.get(name))
+    for v in impls.get("variants", []):
+        if v not in ENUM_COVERED:
+            r.broken.append(f"Enumerator::{v} is enumerated by no C09 harness object")
+    for mac, ty, _ in impls.get("macros", []):
+        if (mac, ty) not in MACROS_COVERED:
+            r.broken.append(f"{mac}!({ty}) stamps out an object implementation no C09 harness kind covers")
+    r.extra["object_impls_covered"] = covered
+    # Value::reverse: which arms do not reverse (the model and the RV: expectations follow the source)
+    REVERSE_FORWARD.clear()
+    for variant, how in (tbl.get("C09_REVERSE") or []):
+        if how == "forward":
+            REVERSE_FORWARD.add(variant)
+    if REVERSE_FORWARD - {"RevIter"}:
+        r.broken.append(f"Value::reverse does not reverse the enumerator variants {sorted(REVERSE_FORWARD)}: only RevIter is modelled that way")
+    sites = (tbl.get("C09_CONVERSION_SITES") or {}).get("sites", [])
+    for site, fn, target in sites:
+        if fn not in CV_NO_VALUE and site not in CV_TEMPLATES:
+            r.broken.append(f"conversion site `{site}` ({fn} -> {target}) has no template in the C09 conversion stream")
+    r.extra["conversion_sites"] = [list(x) for x in sites]
     r.lean_prove("MJ.Props.C09", "MJ/Audit/C09.lean", extra_targets=["drive_c09"])
     exe = r.cargo_build("c09")
     if exe is None:
         return
-    rc, out, err = r.harness(exe, ["gen", r.tier])
+    # ---- the parts of the case generator run side by side, each piped through the model driver
+    rc, out, err = r.harness(exe, ["parts"])
     if rc != 0:
         r.broken.append(f"harness c09 exited {rc}: {err[-300:]}")
         return
-    lines = out.splitlines()
-    model = r.driver("drive_c09", out)
-    if model is None or len(model) != len(lines):
-        r.broken.append("model driver output does not line up with the harness cases")
-        model = None
-    r.extra["box_of_quantifier_exhaustive"] = True
-    r.exhaustive = False  # the box of the quantifier is enumerated completely; the chain stream (longer sequences, more kinds, slices of slices) is sampled
-    for i, line in enumerate(lines):
-        case, impl = line.split("\t")
-        f = case.split()
-        if f[0] in ("gs", "gi", "ga", "long", "meta", "mg", "dv", "ds"):
-            glue_case(r, f, case, impl, model[i] if model is not None else None)
+    parts = out.split()
+    have_driver = r.driver("drive_c09", "") is not None
+    drv = os.path.join(LEAN, ".lake", "build", "bin", "drive_c09")
+    cv_input, cv_index = [], []
+    for n, (site, fn, target) in enumerate(sites):
+        t = CV_TEMPLATES.get(site)
+        if fn in CV_NO_VALUE or t is None:
             continue
-        nontrivial = f[1] not in ("undef", "none") and f[2] != "0" and not (f[0] == "chain" and impl in ("undef", "list:", "str:", "tuple:", "bytes:"))
-        r.count(case, nontrivial)
-        r.hist["stream"][f[0]] += 1
-        r.hist["kind"][f[1]] += 1
-        r.hist["result"][impl.split(":")[0]] += 1
-        spec_py = py_expect(f)
-        if model is not None:
-            c2, m, spec = model[i].split("\t")
-            if impl != m:
-                r.model_disagreement(case, impl, m)
-            if spec != spec_py:
-                r.broken.append(f"Lean PySlice disagrees with CPython on {case}: {spec} vs {spec_py}")
-        if impl != spec_py:
-            if f[0] == "chain":
-                site = "panic" if impl == "panic" else "chain:" + f[1]
-            else:
-                site = "panic" if impl == "panic" else ("slice:" if f[0] == "slice" else "index:") + f[1] + (":backward" if f[0] == "slice" and f[5].startswith("-") else ":forward")
-            r.oracle_failure(case, f"engine returned {impl}, Python selects {spec_py}", site)
-        if i % 40000 == 0:
-            r.sample({"case": case, "engine": impl, "python": spec_py})
+        for key, cls in cv_keys():
+            cv_input.append("cv %d %s %s" % (n, t.encode().hex(), key))
+            cv_index.append((site, fn, target, key, cls))
+
+    def run_part(name):
+        if name == "cv":
+            rc, out, err = r.harness(exe, ["run"], inp="\n".join(cv_input) + "\n")
+        else:
+            rc, out, err = r.harness(exe, ["part", name, r.tier])
+        if rc != 0:
+            return name, None, None, f"harness c09 part {name} exited {rc}: {err[-300:]}"
+        lines = out.splitlines()
+        model = None
+        if have_driver and name != "cv":
+            rc2, out2, err2 = sh([drv], inp=out, timeout=3000)
+            if rc2 != 0:
+                return name, lines, None, f"model driver drive_c09 exited {rc2} on part {name}: {err2[-300:]}"
+            model = out2.splitlines()
+            if len(model) != len(lines):
+                return name, lines, None, f"model driver output does not line up with the harness cases of part {name}"
+        return name, lines, model, None
+
+    import time as _time
+    t0 = _time.time()
+    workers = max(2, min(16, os.cpu_count() or 4))
+    with concurrent.futures.ThreadPoolExecutor(max_workers=workers) as pool:
+        results = list(pool.map(run_part, parts + ["cv"]))
+    r.extra.setdefault("timing_s", {})["harness+driver (parts in parallel)"] = round(_time.time() - t0, 1)
+    r.extra["box_of_quantifier_exhaustive"] = True
+    r.exhaustive = False  # the box of the quantifier is enumerated completely; the other streams are sampled
+    t0 = _time.time()
+    n_seen = 0
+    for name, lines, model, problem in results:
+        if problem:
+            r.broken.append(problem)
+        if lines is None:
+            continue
+        if name == "cv":
+            cv_cases(r, lines, cv_index)
+            continue
+        for i, line in enumerate(lines):
+            n_seen += 1
+            case, impl = line.split("\t")
+            f = case.split()
+            if f[0] in ("gs", "gi", "ga", "long", "meta", "mg", "dv", "ds", "mr", "dr", "pb", "os", "huge"):
+                glue_case(r, f, case, impl, model[i] if model is not None else None)
+                continue
+            nontrivial = f[1] not in ("undef", "none") and f[2] != "0" and not (f[0] == "chain" and impl in ("undef", "list:", "str:", "tuple:", "bytes:"))
+            r.count(case, nontrivial)
+            r.hist["stream"][f[0]] += 1
+            r.hist["kind"][f[1]] += 1
+            r.hist["result"][impl.split(":")[0]] += 1
+            spec_py = py_expect(f)
+            if model is not None:
+                c2, m, spec = model[i].split("\t")
+                if impl != m:
+                    r.model_disagreement(case, impl, m)
+                if spec != spec_py:
+                    r.broken.append(f"Lean PySlice disagrees with CPython on {case}: {spec} vs {spec_py}")
+            if impl != spec_py:
+                if f[0] == "chain":
+                    site = "panic" if impl == "panic" else "chain:" + f[1]
+                else:
+                    site = "panic" if impl == "panic" else ("slice:" if f[0] == "slice" else "index:") + f[1] + (":backward" if f[0] == "slice" and f[5].startswith("-") else ":forward")
+                r.oracle_failure(case, f"engine returned {impl}, Python selects {spec_py}", site)
+            if n_seen % 40000 == 0:
+                r.sample({"case": case, "engine": impl, "python": spec_py})
+    r.extra["timing_s"]["oracle + correspondence (python)"] = round(_time.time() - t0, 1)
+
+
+def cv_cases(r, lines, cv_index):
+    """representation independence at every conversion site: all values that hold the same integer
+    (I64, U64, I128, U128, an integral float; true / false for 1 / 0) give the same output"""
+    if len(lines) != len(cv_index):
+        r.broken.append("conversion stream: results do not line up with the cases")
+        return
+    ref = {}
+    for line, (site, fn, target, key, cls) in zip(lines, cv_index):
+        impl = line.split("\t")[1]
+        if key.startswith("i:") and cls.startswith("int:"):
+            ref[(site, cls)] = impl
+    for line, (site, fn, target, key, cls) in zip(lines, cv_index):
+        case, impl = line.split("\t")       # `cv <row of the site table> <template, hex> <key>`: replayable as it is
+        r.hist["stream"]["cv"] += 1
+        r.hist["conversion_fn"][fn + ":" + target] += 1
+        r.hist["conversion_key_class"][cls.split(":")[0] + ":" + _kindtag(key)] += 1
+        r.count(case, cls.startswith("int:"))
+        if impl == "panic":
+            r.oracle_failure(case, "the engine panicked", "panic")
+            continue
+        if cls.startswith("int:"):
+            want = ref.get((site, cls))
+            if want is not None and impl != want:
+                try:
+                    shown, wshown = bytes.fromhex(impl[4:]).decode() if impl.startswith("out:") else impl, bytes.fromhex(want[4:]).decode() if want.startswith("out:") else want
+                except ValueError:
+                    shown, wshown = impl, want
+                r.oracle_failure(case, f"conversion site {site} ({fn} -> {target}): with {key} it gives {shown[:100]!r}, with the same integer as an i64 {wshown[:100]!r}",
+                                 "cv:" + site + ":" + _kindtag(key))
 
 
 def replay(r, path):
@@ -502,7 +1038,13 @@ def replay(r, path):
         print("engine:", out.strip())
         print("model/spec:", model[0] if model else None)
         f = case.split()
-        if f[0] in ("gs", "gi", "ga", "long", "meta"):
+        if f[0] in ("mr", "dr", "pb", "os", "huge", "cv", "dv", "ds", "mg"):
+            ident = {"dr": 2, "dv": 3, "ds": 2}.get(f[0])
+            if ident is not None and f[ident] in DERIVED_EXPECT:
+                print("python: the value holds", _py_items(DERIVED_EXPECT[f[ident]]), "(relations / selections on it: see derived_case / more_case)")
+            else:
+                print("python:", {"pb": py_pb, "huge": py_huge}.get(f[0], lambda f: "(see the oracle of this stream in lib/props/c09.py)")(f))
+        elif f[0] in ("gs", "gi", "ga", "long", "meta"):
             want = {"gs": py_gs, "gi": py_gi, "long": py_long}.get(f[0], lambda f: None)(f)
             print("python:", want if want is not None else "(no Python semantics: engine rule, see model)")
             if f[0] == "meta" and out.strip():
